@@ -30,6 +30,8 @@ SCAFFOLD = [('S', {
     'A1': 'abc', 'B1': 1, 'C1': 1, 'D1': 3,
     'E1': '=LEFT(A1,B1)', 'F1': '=RIGHT(A1,B1)', 'G1': '=MID(A1,B1,C1)', 'H1': '=LEFT(A1)', 'I1': '=RIGHT(A1)',
     'J1': '=LEFT(A1,B1)&MID(A1,B1+1,D1)',
+    # arguments that are expressions / bracketed / read through a formula cell
+    'X1': '=A1', 'Y1': '=LEFT(A1&"",B1+0)', 'Z1': '=RIGHT((A1),(B1))', 'AA1': '=MID(X1,B1*1,C1+0)', 'AB1': '=LEFT(X1,B1)&""',
     'K1': 'a', 'L1': '=SEARCH(K1,A1)', 'M1': '=SEARCH(K1,A1,B1)',
     'N1': '=VALUE(A1)',
     'P1': 1, 'Q1': 2, 'R1': 3,
@@ -222,13 +224,16 @@ def run_slice_ov(cases, stats):
         o = S.run(cls, [('A1', t)], ['H1', 'I1'], stats)
         judge_slices(t, None, {'LEFT': o[0], 'RIGHT': o[1]}, 'ov', stats, i, vio)
         for n in range(-1, L + 3):
-            o = S.run(cls, [('A1', t), ('B1', n)], ['E1', 'F1'], stats)
+            o = S.run(cls, [('A1', t), ('B1', n)], ['E1', 'F1', 'Y1', 'Z1', 'AB1'], stats)
             stats['cases'] += 1
             judge_slices(t, n, {'LEFT': o[0], 'RIGHT': o[1]}, 'ov', stats, i, vio)
+            judge_slices(t, n, {'LEFT': o[2], 'RIGHT': o[3]}, 'ov-expression-arguments', stats, i, vio)
+            judge_slices(t, n, {'LEFT': o[4]}, 'ov-through-cell', stats, i, vio)
             for k in range(-1, L + 3):
-                o, = S.run(cls, [('A1', t), ('B1', k), ('C1', n)], ['G1'], stats)
+                o = S.run(cls, [('A1', t), ('B1', k), ('C1', n)], ['G1', 'AA1'], stats)
                 stats['cases'] += 1
-                judge_mid(t, k, n, o, 'ov', stats, i, vio)
+                judge_mid(t, k, n, o[0], 'ov', stats, i, vio)
+                judge_mid(t, k, n, o[1], 'ov-expression-arguments', stats, i, vio)
             if 0 <= n < L:
                 o, = S.run(cls, [('A1', t), ('B1', n), ('D1', L)], ['J1'], stats)
                 judge_identity(t, n, o, 'ov', stats, i, vio)
